@@ -51,7 +51,7 @@ def gen_case(rng, tier, avoid):
                                   for _ in range(rng.choice([1, 2, 4]))]
     kind = gen.pick(rng, ['inline', 'dict', 'dict', 'struct', 'struct', 'h5'])
     if kind == 'inline':
-        gen.alias_arrays(rng, spec.ops, p=0.25)      # one ndarray object given to two channels (possibly with different casts)
+        gen.alias_arrays(rng, spec.ops, p=0.25, keep_cast=True)      # one ndarray object given to two channels (possibly with different casts)
     ops, data = spec.ops, None
     if kind != 'inline':
         # (dict: in half of the cases only some channels move to the write-time dict, the others keep their inline arrays)
